@@ -2,6 +2,7 @@ package conc
 
 import (
 	"fmt"
+	"strings"
 	"testing"
 	"time"
 
@@ -77,4 +78,92 @@ func TestC02_WriteSkewAcrossStores(t *testing.T) {
 			}
 		}
 	}
+}
+
+// TestC02_WriteSkewInRefetchWindow (always on, deterministic): T1 reads a and b and writes a; T2 reads a and b and
+// writes b (b lives in another store, so T1 only ever READS b's node); T0 updates an unrelated item of a's node, which
+// sends T1's commit through a refetch-and-merge pass. Between that pass and the re-taking of T1's item locks T1 holds
+// no lock at all: T2 runs from start to end exactly there. The check of the nodes T1 only read, which follows the
+// re-lock, is then the only thing that can notice that b changed. Outcome must equal a serial order.
+func TestC02_WriteSkewInRefetchWindow(t *testing.T) {
+	reached := 0
+	for _, placement := range []int{0, 1, 3} {
+		for _, marker := range []string{"TLog.Add#4", "TLog.Add#5", "TLog.Add#6", "TLog.Add#7", "L2.GetStructs#4", "L2.GetStructs#5", "L2.Lock#1", "L2.DualLock#1"} {
+			e, err := txh.NewEnv(3)
+			if err != nil {
+				t.Fatalf("%v", err)
+			}
+			txh.SeedUUIDs(uint64(77 + placement))
+			stores := []txh.StoreOpts{
+				{Name: "sta", Slot: 4, Unique: true, Placement: placement},
+				{Name: "stb", Slot: 4, Unique: true, Placement: placement},
+			}
+			pre, err := seedStore(e, stores, [][]int{{0, 1}, {0, 1}})
+			if err != nil {
+				t.Fatalf("HARNESS-ERROR %v", err)
+			}
+			op := func(s int, kind string, k int, tag string) txh.Op { return txh.Op{S: s, Kind: kind, K: k, Tag: tag, Size: 10} }
+			progs := []txh.TxnProg{
+				{Mode: sop.ForWriting, End: "commit", Ops: []txh.Op{op(0, "update", 1, "t0.c")}},
+				{Mode: sop.ForWriting, End: "commit", Ops: []txh.Op{op(0, "get", 0, ""), op(1, "get", 0, ""), op(0, "update", 0, "t1.a")}},
+				{Mode: sop.ForWriting, End: "commit", Ops: []txh.Op{op(0, "get", 0, ""), op(1, "get", 0, ""), op(1, "update", 0, "t2.b")}},
+			}
+			segs := []txh.Seg{{P: 1, Until: "Commit.begin"}, {P: 2, Until: "Commit.begin"}, {P: 0}, {P: 1, Until: marker}, {P: 2}, {P: 1}}
+			res, s := e.RunConcurrent(stores, progs, nil, txh.ConcOpts{Directed: segs, MaxTime: 5 * time.Second, Budget: 60 * time.Second})
+			if s.TimedOut {
+				e.Cleanup()
+				continue
+			}
+			final, err := e.Dump(stores, sop.ForReading)
+			if err != nil {
+				t.Fatalf("reader: %v", err)
+			}
+			var committed []int
+			for i, r := range res {
+				if r.Committed {
+					committed = append(committed, i)
+				}
+			}
+			// did T2 run exactly between T1's refetch reads and the log entry that opens T1's next commit try?
+			first, last := -1, -1
+			for i, st := range s.Timeline {
+				if st.P == 2 && strings.HasPrefix(st.Site, "TLog.Add#0") {
+					first = i
+				}
+				if st.P == 2 {
+					last = i
+				}
+			}
+			before, after := "", ""
+			for i, st := range s.Timeline {
+				if st.P == 1 && i < first {
+					before = st.Site
+				}
+				if st.P == 1 && i > last && after == "" {
+					after = st.Site
+				}
+			}
+			if mergePasses(res[1]) >= 1 && res[2].Committed && strings.HasPrefix(before, "Registry.Get") && strings.HasPrefix(after, "TLog.Add") {
+				reached++
+			}
+			ok := false
+			why := ""
+			for _, o := range permutations(committed) {
+				if good, w := replaySerial(pre, res, o, final, stores); good {
+					ok = true
+				} else if why == "" {
+					why = fmt.Sprintf("order %v: %s", o, w)
+				}
+			}
+			e.Cleanup()
+			if !ok {
+				t.Fatalf("%s, T2 run when T1 is about to call %s after its merge pass: T1 (reads a, b; writes a) and T2 (reads a, b; writes b): committed %v (errors %v / %v / %v), no serial order explains it (%s)",
+					txh.PlacementNames[placement], marker, committed, res[0].CommitErr, res[1].CommitErr, res[2].CommitErr, why)
+			}
+		}
+	}
+	if reached == 0 {
+		t.Fatalf("HARNESS-ERROR T2 never committed inside T1's refetch window")
+	}
+	t.Logf("cases where T1 merged and T2 committed in between: %d", reached)
 }
